@@ -166,3 +166,17 @@ package keeper
 //@ loop 0 "for i, val := range lastSavedBridgeValidators.BridgeValidatorSet"
 //@ loop 0 invariant [slots_changed_so_far_belong_to_the_sender] len(atts(snapshot)) == old(len(atts(snapshot))) && forall j in [0, len(atts(snapshot))) :: bytes(atts(snapshot)[j]) != old(bytes(atts(snapshot)[j])) ==> j < i && bytes(lastSavedBridgeValidators.BridgeValidatorSet[j].EthereumAddress) == bytes(evm(operatorAddress))
 //@ loop 0 invariant [other_snapshots_untouched] forall s bytes :: s != bytes(snapshot) ==> (has(bridge.SnapshotToAttestationsMap, s) <==> old(has(bridge.SnapshotToAttestationsMap, s))) && bridge.SnapshotToAttestationsMap[s] == old(bridge.SnapshotToAttestationsMap[s])
+
+// ---- EVM address registration (C17) ----
+// EVMAddressFromSignatures recovers the signer of two fixed messages with secp256k1 (crypto, not modelled): trusted, reads only.
+//@ func (k Keeper).EVMAddressFromSignatures(ctx, sigA, sigB) (addr, err)
+//@ trusted
+
+//@ func (k Keeper).GetEVMAddressByOperator(ctx, operatorAddress) (evmAddr, err)
+//@ ensures [found_iff_registered] (err == nil) <==> has(bridge.OperatorToEVMAddressMap, operatorAddress)
+//@ ensures [reads_only] nothing_written()
+
+//@ func (k Keeper).SetEVMAddressByOperator(ctx, operatorAddr, evmAddr) (err)
+//@ modifies bridge.OperatorToEVMAddressMap
+//@ ensures [registers_exactly_this_operator] err == nil && has(bridge.OperatorToEVMAddressMap, operatorAddr) && bytes(bridge.OperatorToEVMAddressMap[operatorAddr].EVMAddress) == bytes(evmAddr)
+//@ ensures [other_operators_untouched] forall o string :: o != operatorAddr ==> (has(bridge.OperatorToEVMAddressMap, o) <==> old(has(bridge.OperatorToEVMAddressMap, o))) && bridge.OperatorToEVMAddressMap[o] == old(bridge.OperatorToEVMAddressMap[o])
